@@ -499,6 +499,14 @@ func (m *hdMcu) create(ctx context.Context, o *hdMcuObj) (*hdMcuObj, error) {
 				return nil, fmt.Errorf("creation failed")
 			}
 		case <-ctx.Done():
+			m.mu.Lock()
+			for i, q := range m.pending {
+				if q == p {
+					m.pending = append(m.pending[:i:i], m.pending[i+1:]...)
+					break
+				}
+			}
+			m.mu.Unlock()
 			m.event(fmt.Sprintf("timeout %s %d", o.Kind, o.Tok))
 			return nil, ctx.Err()
 		}
